@@ -47,6 +47,8 @@ def features(deck):
         f.add('negative_u')
     if any(c.get('kw_front') or c.get('kw_back') for c in deck['cells']):
         f.add('irrelevant_kw')
+    if any(c.get('kwshuffle') is not None for c in deck['cells']):
+        f.add('keyword_order')
     return sorted(f)
 
 
@@ -68,6 +70,14 @@ def run(chk, decks, clauses, seed, optsets, npts=110, decorate=None, lo=-11, hi=
             d['plusspell'] = True        # '+3' is a valid MCNP number
         if i % 5 == 1:
             adeck.irrelevant_keywords(d, rng)      # VOL=, NONU=, TMP=, UNC:N= ... on the cell cards
+        if i % 5 == 2:
+            for c in d['cells']:         # the keywords of a cell card in another order
+                if not c.get('like'):
+                    c['kwshuffle'] = rng.randrange(1000)
+        if i % 5 == 4:
+            for c in d['cells']:         # FILL arrays with the nR shorthand
+                if c['lat']:
+                    c['arrayshort'] = True
         if i % 5 == 3:
             for c in d['cells']:         # U=-n: same universe, "not truncated by the container" hint
                 if c['u'] and not c.get('like'):
